@@ -7,7 +7,7 @@
     [run]: allocations (guarded by HasSpace, as the store does), Write/flush/abandon steps
     of any writer in any interleaving. *)
 From BBS Require Import Common.Sx Store.SectorWriter Store.SectorWriterProofs Store.SectorWriterSpec
-  Store.SectorWriterCommute Store.SectorWriterInv Store.SectorWriterAccum Run.R01S.
+  Store.SectorWriterCommute Store.SectorWriterInv Store.SectorWriterAccum Store.SectorWriterCommute2 Run.R01S.
 
 (** Byte ranges handed out by successive allocations are in order and pairwise disjoint,
     start at or above the initial cursor, end within the block; HasSpace is exactly "fits". *)
@@ -57,6 +57,18 @@ Theorem private_write_commutes : forall c s ea eb ka kb ta tb sa la sb lb,
   exists sab, step c sa eb = Some (sab, lb) /\ step c sb ea = Some (sab, la).
 Proof. exact private_write_commutes_gen. Qed.
 Print Assumptions private_write_commutes.
+
+(** In particular: steps of two different writers whose sector spans (the sectors overlapping
+    their byte ranges) are disjoint commute, in every reachable state. *)
+Theorem private_write_commutes_disjoint_sectors : forall c dev b0 tr s ea eb ka kb ta tb sa la sb lb,
+  1 <= c_sector c -> b_shared b0 = None -> run c (init_state dev b0) tr = Some s ->
+  ev_thread ea = Some ka -> ev_thread eb = Some kb -> ka <> kb ->
+  nth_error (st_threads s) ka = Some ta -> nth_error (st_threads s) kb = Some tb ->
+  (span_hi c ta <= span_lo c tb \/ span_hi c tb <= span_lo c ta) ->
+  step c s ea = Some (sa, la) -> step c s eb = Some (sb, lb) ->
+  exists sab, step c sa eb = Some (sab, lb) /\ step c sb ea = Some (sab, la).
+Proof. exact private_write_commutes_spans. Qed.
+Print Assumptions private_write_commutes_disjoint_sectors.
 
 (** A shared-sector image contains, for every writer touching that sector, the bytes it has
     copied so far ([copied]: bytes of its first, shared sector as soon as they were passed to
